@@ -5,6 +5,12 @@ were given only the property text and a scratch worktree, asked for two cooperat
 stable), with the confirmation (/root/confirm_r4.json, tools/seed_confirm.py) and the verdicts of tools/seedtest.py (RESDIR)."""
 import sys, os, json, glob, shutil
 ROOT = os.path.dirname(os.path.dirname(os.path.abspath(__file__)))
+# what the first run over a seeded defect showed, where that differs from the final result (DESIGN.md 12.1)
+BEFORE = {
+    'C03': 'missed by C03 when first run (C02 reported the replacing insert): the over-evicting later steps start from a state with stale recorded sizes and were not judged; added c03_mon (minimality in the true sizes, proved sound for the model), evaluated on every observed step',
+    'C01': 'would have been missed by C01 (the clone that exceeds the limit is taken from a source with inconsistent bookkeeping, a step that was not judged): the absolute monitors of C01 are now evaluated on the post-state of such steps too',
+    'C06': 'missed by every check when first run with the 17 trace-based checks (/root/seedres_r4_C06_first_run.json): a double drop of objects handed out and dropped within the same into_iter step; added the per-step ledger mon_c06 for the consuming iterators',
+}
 
 def main():
     resdir, commit = sys.argv[1], sys.argv[2]
@@ -36,10 +42,11 @@ def main():
             for pid_ in flagged:
                 vl = res.get('checks', {}).get(pid_, {}).get('violations', [])
                 (tie if vl and all('no-failing-input-found' in v for v in vl) else conc).append(pid_)
-            out.update(ran_here=['git -C /repo apply seeded/%s/patch.diff ; the quick_cmd of %s from MANIFEST.json (VERIF_SEED=7) ; git -C /repo checkout -- .' % (sid, ', '.join(sorted(res.get('checks', {})))))],
+            out.update(ran_here=['git -C /repo apply seeded/%s/patch.diff ; the quick_cmd of %s from MANIFEST.json (VERIF_SEED=7) ; git -C /repo checkout -- .' % (sid, ', '.join(sorted(res.get('checks', {}))))],
                        run_commit=commit, checks_run=sorted(res.get('checks', {})), flagged_by=flagged, flagged_with_failing_input=conc,
                        flagged_tie_only_no_failing_input_found=tie, detected_by_target_check=res.get('target_detected'),
                        violations_of_target=res.get('checks', {}).get(prop, {}).get('violations', [])[:3])
+        if prop in BEFORE: out['before_strengthening'] = BEFORE[prop]
         json.dump(out, open(os.path.join(dst, 'meta.json'), 'w'), indent=1)
         rows.append((sid, out.get('flagged_with_failing_input'), out.get('flagged_tie_only_no_failing_input_found'), out.get('detected_by_target_check'), (meta.get('summary') or '')[:150]))
     json.dump(mapping, open(mp_path, 'w'), indent=1, sort_keys=True)
